@@ -80,8 +80,14 @@ def oracle(world):
             imps = pk[q]["imports"] if it[1] == "0" else []
             if it[0] == "use":
                 form, target = it[2], it[3]
-                if target != q and target not in imps:
-                    reasons.append(("isolation", f"{q} names {target} ({form}) without importing it"))
+                via = it[5] if len(it) > 5 else "-"
+                # the roots of the paths the use writes down: whatever the length of a path (`P::f`, `P::S::f`,
+                # `P::T::m`), its root must be the package itself or one of its imports; `flow` only handles a value
+                # whose type lives in `target` and names nothing but `via`
+                roots = {"flow": [via], "sself": [via, target]}.get(form, [target])
+                bad_root = next((n for n in roots if n != q and n not in imps), None)
+                if bad_root is not None:
+                    reasons.append(("isolation", f"{q} names {bad_root} ({form}) without importing it"))
                 elif form == "unq" and target != q:
                     reasons.append(("isolation", f"{q} names an item of {target} without qualification"))
                 elif form == "nofn":
@@ -127,16 +133,24 @@ def norm_real(r):
 
 
 def run(ctx):
+    import time
+    t0 = time.time()
     ctx.extract()
     ctx.build_lean(["GomlVerif.Props.C16"])
+    t1 = time.time()
     if not ctx.build_harness():
         return ctx.finish("proof", {"evaluations": 0, "distinct_nontrivial": 0}, [], "lake build")
+    t2 = time.time()
     ok, out = ctx.gv("c16")
+    t3 = time.time()
     rows = vlib.read_tsv(os.path.join(ctx.run_dir, "c16.cases.tsv")) if ok else []
     cases = [r for r in rows if len(r) >= 6 and r[1] == "CASE"]
     model = ctx.model("c16", [f"{r[0]}\t{r[2]}" for r in cases]) if cases and os.path.exists(vlib.MODEL) else {}
+    t4 = time.time()
     n_eq, shapes, outcomes, placements, reasons_count = 0, {}, {}, {}, {}
     samples, distinct, internal_followups = [], set(), 0
+    n_transitive_reachable = 0
+    flow_transitive = {}
     diffs = []
     for r in cases:
         cid, sexp, real_raw, shape, same = r[0], r[2], r[3], r[4], r[5]
@@ -170,6 +184,13 @@ def run(ctx):
                             todo_t.extend(by[x][2][1:])
                         rel = "transitive-only" if it[3] in seen_t else "exists-not-imported"
                     key = f"use:{it[2]}:{rel}" + (":file-without-imports" if it[1] == "1" else "")
+                    if rel == "transitive-only" and reach and p[0] in reach:
+                        n_transitive_reachable += 1
+                        if it[2] == "flow" and len(p[3][1:]) == 1 and sum(len(x[3][1:]) for x in world[1:]) == 1:
+                            # the benign flow alone in its world: shows what the compiler does with a value whose
+                            # type lives in a package that is reachable only through an import of an import
+                            v = "accept" if real == "(accept)" else "reject"
+                            flow_transitive[v] = flow_transitive.get(v, 0) + 1
                 else:
                     rel = lambda n: "-" if n == "-" else "prim" if n == "int32" else "own" if n == p[0] else "foreign"
                     where = "root" if p[0] == "Main" else "lib"
@@ -211,6 +232,10 @@ def run(ctx):
         "samples": samples, "worlds": len(cases), "worlds_equal": n_eq, "model_diffs": len(diffs),
         "graph_shapes": shapes, "outcomes": dict(sorted(outcomes.items(), key=lambda kv: -kv[1])),
         "placements": dict(sorted(placements.items())), "oracle_rejection_reasons": reasons_count,
+        "uses_of_transitive_only_packages_in_reachable_packages": n_transitive_reachable,
+        "benign_flow_through_transitive_only_package_alone_in_its_world": flow_transitive,
+        "phases_s": {"extract_and_lean": round(t1 - t0, 1), "harness_build": round(t2 - t1, 1), "harness_run": round(t3 - t2, 1),
+                     "model_run": round(t4 - t3, 1), "compare_and_oracle": round(time.time() - t4, 1)},
         "internal_error_followups": internal_followups,
         "impl_oracle_failures": len(ctx.violations),
     }
